@@ -36,6 +36,10 @@ Universe ==
   \cup [verb : {"incr", "decr"}, key : Keys, delta : UNums, noreply : BOOLEAN]
   \cup [verb : {"touch"}, key : Keys, exptime : SNums, noreply : BOOLEAN]
   \cup [verb : {"flush_all"}, delay : SNums, noreply : BOOLEAN]
+  \cup [verb : {"stats"}, keys : Seqs(Keys, 0, 2), exptime : {<<>>}, noreply : {FALSE}]
+  \cup [verb : {"cache_memlimit"}, limit : UNums, noreply : BOOLEAN]
+  \cup [verb : {"version"}, noreply : {FALSE}] \cup [verb : {"quit"}, noreply : {TRUE}]
+  \cup [verb : {"shutdown"}, graceful : BOOLEAN, noreply : {FALSE}]
 
 (* second commands for the concatenation theorem: one of each shape, with clean keys *)
 Seconds ==
